@@ -312,13 +312,14 @@ pub fn run_rm2(args: &[i128], cont: usize, rm: bool, readd: bool) -> Vec<i128> {
         let mut flags = Vec::new();
         preorder(&shape, &mut flags);
         if let Top::G(_, g) = &top {
-            // a causaloid index beyond 32 bits (index + 2^32) must not alias a member: reasoning addressed to it must fail and leave
+            // a causaloid index far beyond the graph (index + 2^8, 2^16, 2^32, 2^48) must not alias a member: reasoning addressed to it must fail and leave
             // every activation alone; any hit is reported as an extra flag 777002
-            let big = 1usize << 32;
             let one = [11.0f64];
             let mut alias = false;
-            for i in 0..12usize {
-                if g.contains_causaloid(i + big) || g.get_causaloid(i + big).is_some() || g.reason_single_cause(i + big, &one).is_ok() { alias = true; }
+            for big in [1usize << 8, 1usize << 16, 1usize << 32, 1usize << 48] {
+                for i in 0..12usize {
+                    if g.contains_causaloid(i + big) || g.get_causaloid(i + big).is_some() || g.reason_single_cause(i + big, &one).is_ok() { alias = true; }
+                }
             }
             if alias { flags.push(777002); }
         }
